@@ -66,12 +66,14 @@ Proof. destruct o; intros H; [apply commit_some in H | apply commit_none in H]; 
 
 Lemma run_input_acc_mono f now s i : acc_mono (s_accounts s) (s_accounts (outcome_state (run_input f now s i) s)).
 Proof.
-  destruct i as [ps ts ref md amd force | id force at_eff rmeta | [a|id] md | [a|id] k]; simpl.
-  - destruct ps as [|p ps']; [apply acc_mono_refl|].
+  script_split i.
+  { simpl. unfold create_tx. destruct ps as [|p ps']; [apply acc_mono_refl|].
     destruct (feasible force (s_vols s) (p :: ps')); simpl; [|apply acc_mono_refl].
     destruct (commit_transaction f now s (p :: ps') md ts ref) as [s1 [t|]] eqn:E; simpl.
     + rewrite <- (commit_accounts _ _ _ _ _ _ _ _ _ E). apply upsert_tx_accounts_mono.
-    + rewrite (commit_accounts _ _ _ _ _ _ _ _ _ E). apply acc_mono_refl.
+    + rewrite (commit_accounts _ _ _ _ _ _ _ _ _ E). apply acc_mono_refl. }
+  destruct i as [ps ts ref md amd force | id force at_eff rmeta | [a|id] md | [a|id] k | ps ts ref md amd force smd samd];
+    [apply Hc | | | | | | script_bullet Hc]; simpl.
   - destruct (find_tx (s_txs s) id) as [t|]; [|apply acc_mono_refl].
     destruct (t_rev t); [apply acc_mono_refl|].
     match goal with |- context [match ?c with RCOk => _ | RCInsufficient => _ | RCPanic => _ end] => destruct c end;
